@@ -146,6 +146,15 @@ impl<'a> Ctx<'a> {
 				return;
 			}
 		};
+		// history: an earlier write of this game on this thread failed part-way (sink full); what follows
+		// must not depend on it
+		{
+			let other = crate::gen::build_beh(self.db, self.beh, &crate::gen::GenOpts::new(crate::util::fnv(&self.built.bytes), self.built.ver));
+			if let Outcome::Ok(gx) = real::read_slp_noopts(&other.bytes) {
+				let h = crate::util::fnv(&other.bytes);
+				real::fail_write_slp(&gx, if h % 2 == 0 { (h / 2) as usize % other.bytes.len() } else { other.bytes.len() - 1 - (h / 2) as usize % other.bytes.len().min(64) });
+			}
+		}
 		match real::write_slp(&g) {
 			Outcome::Ok(w) => {
 				if let Some(i) = first_diff(&w, &self.built.bytes) {
@@ -266,8 +275,15 @@ impl<'a> Ctx<'a> {
 		} else {
 			None
 		};
+		// the options of the one-shot reader are accepted by every incremental call; what a call consumes,
+		// counts and stores does not depend on them (driven on the fixed-size fragmentation)
+		let opts_v = match (&frag, mode) {
+			(crate::stream::Frag::Fixed(_), "c12") => Some(slippi::de::Opts { skip_frames: true, compute_hash: true, debug: None }),
+			_ => None,
+		};
+		let opts = opts_v.as_ref();
 		let mut r = crate::stream::FragReader::new(&b[..], frag);
-		let hdr = guard(|| slippi::de::parse_header(&mut r, None));
+		let hdr = guard(|| slippi::de::parse_header(&mut r, opts));
 		let raw_len = match hdr {
 			Outcome::Ok(n) => n,
 			o => {
@@ -278,7 +294,7 @@ impl<'a> Ctx<'a> {
 		if raw_len != self.built.raw_len {
 			out.push(viol("inc_header", &cls, "mismatch", format!("raw_len {}", raw_len)));
 		}
-		let mut st = match guard(|| slippi::de::parse_start(&mut r, None)) {
+		let mut st = match guard(|| slippi::de::parse_start(&mut r, opts)) {
 			Outcome::Ok(s) => s,
 			o => {
 				out.push(outcome_viol("inc_start", &cls, &o));
@@ -291,7 +307,7 @@ impl<'a> Ctx<'a> {
 		}
 		let mut last_rows = 0usize;
 		for (k, e) in self.beh.hist.iter().enumerate() {
-			let code = match guard(|| slippi::de::parse_event(&mut r, &mut st, None)) {
+			let code = match guard(|| slippi::de::parse_event(&mut r, &mut st, opts)) {
 				Outcome::Ok(c) => c,
 				o => {
 					out.push(viol("inc_event", &cls, o.kind(), format!("event {} ({}): {}", k + 1, e.k, o.detail())));
@@ -354,14 +370,23 @@ impl<'a> Ctx<'a> {
 			let tail = guard(|| -> peppi::io::Result<()> {
 				use std::io::Read;
 				let mut b1 = [0u8; 1];
-				// skip a duplicated Game End / junk inside the raw element, as the one-shot reader does
+				// a driver that feeds one event per call until the raw element is used up also feeds the
+				// duplicated Game End some Slippi versions write
+				if self.beh.file_end == "double" {
+					let before = st.bytes_read();
+					slippi::de::parse_event(&mut r, &mut st, opts)?;
+					if st.bytes_read() != consumed(r.position()) || st.bytes_read() <= before {
+						return Err(peppi::io::Error::InvalidData(format!("bytes_read after the duplicated Game End: {} vs {}", st.bytes_read(), consumed(r.position()))).into());
+					}
+				}
+				// skip junk inside the raw element, as the one-shot reader does
 				let pos = r.position();
 				if pos < self.built.raw_end {
 					r.set_position(self.built.raw_end);
 				}
 				r.read_exact(&mut b1)?;
 				if b1[0] == 0x55 {
-					slippi::de::parse_metadata(&mut r, &mut st, None)?;
+					slippi::de::parse_metadata(&mut r, &mut st, opts)?;
 				}
 				Ok(())
 			});
@@ -645,6 +670,21 @@ impl<'a> Ctx<'a> {
 					continue;
 				}
 			};
+			// the same bytes arriving in pieces (the unknown payload is then skipped across several reads)
+			{
+				let frag = if with.bytes.len() % 2 == 0 { crate::stream::Frag::Random(with.bytes.len() as u64) } else { crate::stream::Frag::Fixed(1 + with.bytes.len() % 6) };
+				let r = crate::stream::FragReader::new(&with.bytes, frag);
+				match crate::util::guard(|| peppi::io::slippi::read(r, None)) {
+					Outcome::Ok(gf) => {
+						if let Some(d) = same_cols(&base_cols, &cols::from_immutable(&gf.frames), true) {
+							out.push(viol("unknown_insert_frag", &cls, "mismatch", format!("{}: {}", name, d)));
+						} else if gf.gecko_codes != base.gecko_codes || gf.end != base.end || gf.metadata != base.metadata {
+							out.push(viol("unknown_insert_frag", &cls, "mismatch", format!("{}: gecko/end/metadata differ", name)));
+						}
+					}
+					o2 => out.push(viol("unknown_insert_frag_read", &cls, o2.kind(), format!("{}: {}", name, o2.detail()))),
+				}
+			}
 			let mut diff = same_cols(&base_cols, &cols::from_immutable(&g.frames), true);
 			if diff.is_none() && (g.start.bytes != base.start.bytes || format!("{:?}", g.start) != format!("{:?}", base.start)) {
 				diff = Some("start differs".into());
@@ -810,6 +850,16 @@ impl<'a> Ctx<'a> {
 				out.push(viol("slp_hash", &cls, "mismatch", format!("hash requested={} reported={:?}", with_hash, hash)));
 			}
 			let cc = format!("{},comp:{}", cls, comp.name());
+			// history: an earlier .slpp write on this thread failed part-way (sink full)
+			// (of another game of the same shape, at a point anywhere in the archive or within its last 2 kB)
+			let other = crate::gen::build_beh(self.db, self.beh, &crate::gen::GenOpts::new(crate::util::fnv(&self.built.bytes), self.built.ver));
+			if let (Outcome::Ok(gx), Outcome::Ok(gy)) = (real::read_slp(&other.bytes, false, with_hash), real::read_slp(&other.bytes, false, with_hash)) {
+				if let Outcome::Ok(full) = real::write_slpp(gy, *comp) {
+					let h = crate::util::fnv(&other.bytes);
+					let limit = if h % 3 == 0 { (h / 3) as usize % full.len() } else { full.len() - 1 - (h / 3) as usize % full.len().min(2048) };
+					real::fail_write_slpp(gx, *comp, limit);
+				}
+			}
 			let arch = match real::write_slpp(g, *comp) {
 				Outcome::Ok(a) => a,
 				o => {
